@@ -106,6 +106,17 @@ def run(ctx):
     ctx.attempt("check_by_functions", check_by_functions, ctx, lib)
     ctx.attempt("check_unknown_function", check_unknown_function, ctx, lib)
     ctx.attempt("check_result_types", check_result_types, ctx, lib, sigs)
+    # an argument declared `expref` is the reference the caller wrote only if `&` takes the whole expression after it as its
+    # operand (`&a || b` is a reference to `a || b`, not `(&a) || b`): the order relations of the binding-power table and the
+    # operand powers (shared with C04)
+    from ..parsing import lbp_table
+    from .c04 import check_lbp_relations, check_operands
+    table, why = lbp_table(lib)
+    if table is None:
+        ctx.missing("lbp-table", "Token::lbp", why)
+    else:
+        ctx.attempt("check_lbp_relations", check_lbp_relations, ctx, table)
+        ctx.attempt("check_operands", check_operands, ctx, lib, table)
 
 
 # ---------------------------------------------------------------------------------------------
